@@ -211,6 +211,8 @@ class Verifier:
         t0 = time.time()
         try:
             relpath, qual = c.target.split("::")
+            self.repo.default_hint = relpath
+            self.repo.class_hint.clear()
             fnode, ci = self.repo.function_source(relpath, qual)
             fr.source_hash = self.repo.extracted.get(c.target)
         except (KeyError, OSError, SyntaxError) as e:
